@@ -650,6 +650,8 @@ var boolSumCache = map[*ssa.Function]*boolSummary{}
 
 var quotedRe = regexp.MustCompile(`"(?:[^"\\]|\\.)*"`)
 
+var constLookupRe = regexp.MustCompile(`@([a-z]+)\.([A-Za-z_][A-Za-z_0-9]*)\[([^\[\]@!#]*)\](?:#[01])?`)
+
 var paramPathRe = regexp.MustCompile(`\$(\d+)((?:\.[A-Za-z_][A-Za-z_0-9]*)*)`)
 
 func (p *PathConds) boolSummaryOf(g *ssa.Function) *boolSummary {
@@ -766,6 +768,14 @@ func (p *PathConds) boolSummaryOf(g *ssa.Function) *boolSummary {
 		for _, c := range cs {
 			for _, l := range c {
 				bare := quotedRe.ReplaceAllString(l[1:], `""`)
+				// a lookup in a package-level table that is only ever read means the same in the caller
+				bare = constLookupRe.ReplaceAllStringFunc(bare, func(m string) string {
+					sm := constLookupRe.FindStringSubmatch(m)
+					if t.w.constGlobal(sm[1], sm[2]) {
+						return "G[" + sm[3] + "]"
+					}
+					return m
+				})
 				if strings.ContainsAny(bare, "@!#") || strings.Contains(bare, "phi(") || strings.Contains(bare, "mu(") {
 					return nil
 				}
